@@ -866,6 +866,28 @@ F_C14_final(cfg, last, outcome) ==
           ELSE Chk("C14.not-earlier-than-count", Counter(cfg, last) >= cfg.maxc))
 
 ----------------------------------------------------------------------------
+(* C16 pause / resume transparency, on the engine's own state: a stop of the simulation (pseudo-event *)
+(* `pause`) changes nothing but the clock and the servers' reported busy time; the utilisation clause  *)
+(* of C04 (attached time / present time, integrated by the observer) is evaluated at the end of runs   *)
+(* made of several calls exactly as for a single call.                                                 *)
+
+StripSrv(nd) == [nd EXCEPT !.srv = [j \in DOMAIN nd.srv |-> [nd.srv[j] EXCEPT !.bt = 0, !.btw = NONE]]]
+
+F_C16_pause(cfg, pre, post) ==
+    Chk("C16.pause-leaves-customers-unchanged", post.cu = pre.cu)
+    \cup Chk("C16.pause-leaves-nodes-unchanged",
+             Len(post.nodes) = Len(pre.nodes) /\ \A n \in DOMAIN pre.nodes : StripSrv(post.nodes[n]) = StripSrv(pre.nodes[n]))
+    \cup Chk("C16.pause-leaves-arrivals-and-exit-unchanged",
+             post.arr = pre.arr /\ post.exit = pre.exit /\ post.created = pre.created /\ post.accepted = pre.accepted
+             /\ post.completed = pre.completed /\ post.and = pre.and)
+    \cup Chk("C16.pause-credit-is-restorable", \A n \in DOMAIN post.nodes : \A j \in DOMAIN post.nodes[n].srv :
+             \* a busy server's reported busy time = its busy time before the stop + the service in progress up to T
+             LET s == post.nodes[n].srv[j]
+             IN s.busy /\ IsLive(post, s.cust) /\ CuOf(post, s.cust).ss # NONE =>
+                  s.btw # NONE /\ s.bt = s.btw + (post.ev.date - CuOf(post, s.cust).ss))
+    \cup Chk("C16.clock-after-stop", post.now >= pre.now /\ post.now = MinDateOf(pre))
+
+----------------------------------------------------------------------------
 (* C17 state trackers equal the true configuration.  gb = current blockages <<from, id, to>> in *)
 (* the order they arose (maintained from the observed block / unblock micro-steps).             *)
 
